@@ -58,7 +58,7 @@ def requirements(tier):
     return {"ints_matrices_enumerated": 21297, "entries_checked:UPGrad": 20000, "entries_checked:DualProj": 20000, "entries_checked:MGDA": 8000,
             "entries_checked:CAGrad": 1000, "mgda_suboptimality_bound_checked": 3000, "w_conflict_present": 5000, "w_allowance_binding": 20,
             "w_max_iters=1": 10, "w_max_iters=5": 10, "w_max_iters=20": 10, "w_max_iters=100": 10, "w_max_iters=500": 10, "w_max_iters=2000": 50, "w_max_iters=3000": 50, "w_max_iters=5000": 50, "w_hostile_pref_vector": 200,
-            "w_float32": 200}
+            "w_float32": 200, "w_tiny_scale_with_norm_eps_below_it": 100}
 
 
 _BUFFERS: dict = {}
@@ -211,6 +211,13 @@ def gen_hostile(rng, i):
         if not any(a["pref"]):
             a["pref"][0] = 1.0
         a["pref_dtype"] = "int64"
+    if a["name"] in ("UPGrad", "DualProj") and rng.random() < 0.12:
+        # "badly scaled": a Jacobian of tiny gradients with norm_eps configured below its scale (s >= norm_eps holds).  The squares
+        # of such entries are denormal or zero in the matrix dtype; their ratios to s are ordinary numbers
+        e = rng.uniform(-26, -18) if dname == "float32" else rng.uniform(-140, -100)
+        J = J * 10.0 ** e / max(M.smax(J), 1e-300)
+        a["norm_eps"] = 1e-32 if dname == "float32" else 1e-200
+        klass += "+tiny_scale_small_norm_eps"
     if a["name"] == "MGDA" and rng.random() < 0.5:
         # MGDA has no scale parameter at all: its sub-optimality bound 8 s^2 / (iterations + 2) must hold at every magnitude
         J = J * 10.0 ** rng.uniform(-8, 8) / max(M.smax(J), 1e-300)
@@ -237,6 +244,8 @@ def check_hostile(case, ctx):
     conflict = judge(J, case["dtype"], case["agg"], ctx, case, case["class"])
     if case["agg"].get("pref") is not None:
         ctx.count("w_hostile_pref_vector")
+    if case["class"].endswith("+tiny_scale_small_norm_eps"):
+        ctx.count("w_tiny_scale_with_norm_eps_below_it")
     ctx.klass(f"hostile/{case['class']}/{case['agg']['name']}")
     ctx.evaluated(fingerprint(case), nontrivial=bool(conflict))
     ctx.sample({"J": np.round(J, 4).tolist(), "class": case["class"], "agg": case["agg"], "dtype": case["dtype"]})
